@@ -43,7 +43,9 @@ CHECKS = {
              "add_block_no_validation - every earlier entry of every map is the old one, the new block's unspent set is "
              "uto_apply_block of its PARENT's set, no write to the state value; uto_apply_block is the fold of "
              "uto_apply_transaction; lemma C03.replay: the set stored at any block is the fold along that block's own "
-             "ancestors whatever else is stored and in whatever order it arrived. BOUNDED (exploration, not counted as "
+             "ancestors whatever else is stored and in whatever order it arrived; the per-key balance index is a MEMO of a "
+             "function of (stored blocks, block id): PublicKeyBalances.__getitem__ returns that function's value, only ever "
+             "stores such values, and never changes or drops an entry obtained earlier. BOUNDED (exploration, not counted as "
              "proved): the per-key balances (sum and exact reference list) against the unspent sets, and immutability of "
              "balance maps and snapshots obtained earlier, evaluated with the real code on every tree shape up to the "
              "stated bound, with spends that differ between forks, in several arrival orders and query orders.",
